@@ -59,15 +59,19 @@ def build_corpus(tier, seed):
 
 
 def c09_region(r):
-    """the same literal (text, description) at two fallback levels from one state: two automaton symbols share one (state, literal id) table entry"""
+    """one reading at two fallback levels from one state (the same literal text and description, the same command text, the same
+    within-word automaton): the script tables have one (state, item id) entry for what are two automaton symbols.  This is the region
+    the property statements hand to C09 (literals, within-word expressions) or leave open (commands)."""
     for d in [r["obs"]["min"]] + r["obs"]["minsubs"]:
         seen = {}
         for t in d["tr"]:
-            if t["l"]["k"] == "lit":
-                key = (t["f"], t["l"]["t"], t["l"]["d"], t["l"]["hd"])
-                if key in seen and seen[key] != t["l"]["lv"]:
-                    return True
-                seen[key] = t["l"]["lv"]
+            l = t["l"]
+            if l["k"] == "star":
+                continue
+            key = (t["f"], l["k"], l["t"], l["d"], l["hd"], l["sub"])
+            if key in seen and seen[key] != l["lv"]:
+                return True
+            seen[key] = l["lv"]
     return False
 
 
